@@ -149,7 +149,22 @@ def unit_rows(units, preamble=UNIT_PREAMBLE):
             _unit_cache[key] = (p.parse().units, {})
     uenv, memo = _unit_cache[key]
     rows = []
+    # a custom unit `$unit name = k base` is computed from its DEFINITION (k times the magnitude of the ordinary unit
+    # `base`, dimensions of `base`), not read back from the unit list the parser filled
+    custom = {}
+    if preamble:
+        import re
+        for m in re.finditer(r"^\$unit +([A-Za-z0-9_]+) *= *([^ #]+) +([^ #]+)", preamble, re.M):
+            custom["[%s]" % m.group(1)] = (m.group(2), m.group(3))
     for u in sorted(set(units)):
+        if u not in memo and u in custom:
+            try:
+                k, base = custom[u]
+                b = Quantity(1, base).baseunits
+                f = Fraction(k) * Fraction(float(b.magnitude))
+                memo[u] = [u, str(f.numerator), str(f.denominator), [int(x) for x in b.dimensions.value()]]
+            except Exception:
+                memo[u] = None
         if u not in memo:
             try:
                 with UnitEnvironment(uenv):
@@ -333,6 +348,9 @@ def gen_scalar(rng, ty):
     if ty == "int":
         i = big_ints(rng)
         t = str(i)
+        if rng.random() < 0.15:
+            # zero padding is part of the integer literal: int('007') is 7
+            t = ("-" if i < 0 else "") + rng.choice(["0", "00", "000"]) + str(abs(i))
         if i >= 0 and rng.random() < 0.1:
             t = "+" + t
         if rng.random() < 0.1:
